@@ -2295,7 +2295,9 @@ def rule_clamp_order(ctx, config='dev'):
 # the function (closures folded into their parent) so that a new unproven site anywhere is reported
 SLICE_ASSUMED = {
     'ReplaceSource<T> as helpers::StreamChunks>::stream_chunks': (
-        2, 'ReplaceSource::stream_chunks: (i) `chunk_pos..chunk_pos + offset`, end = start plus an unsigned value (the order can only '
+        {'dev': 2, 'release': 3},
+           'ReplaceSource::stream_chunks: (i) `chunk_pos..chunk_pos + offset` (two sites; with overflow checks the second one is '
+           'proven from the checked addition, without them both are listed), end = start plus an unsigned value (the order can only '
            'fail if that u32 addition overflows, an overflow obligation and not a range one); (ii) `chunk_pos..chunk.len()` directly '
            'under the guard `(chunk_pos as usize) < chunk.len()` — `chunk_pos` is computed by position subtractions whose range the '
            'domain does not establish, so facts about it are not used'),
@@ -2344,7 +2346,7 @@ def rule_slice_order(ctx, config='dev'):
         allowed, reason = 0, None
         for k, (n_, why_) in SLICE_ASSUMED.items():
             if k in root:
-                allowed, reason = n_, why_
+                allowed, reason = (n_.get(config, n_['dev']) if isinstance(n_, dict) else n_), why_
         if len(lst) <= allowed:
             for b, t, v, inst in lst:
                 r.site(inst + ': not proven; assumed: ' + reason, t['s'], 'assumed')
